@@ -7,6 +7,25 @@ From FitV Require Import Model.Values Model.Bytes Model.Crc Model.IO Model.Heade
   Model.Decode Gen.Consts Proofs.IOSim Proofs.C10IO Proofs.C10Frame.
 Import ListNotations.
 
+(* ------------------------------------------------------------ the buffered phase *)
+Lemma io_error_is_reported {S E A} (p : prog S E A) rd limit crc fuel s :
+  length (rd_data rd) + length (rd_sched rd) < fuel ->
+  forall e x s', run_a p (start_a rd limit) s = RIOErr e x s' ->
+  exists c', run_c p (start_c rd limit crc fuel) s = RIOErr e c' s' /\
+             e = err_of limit (rd_data rd) (rd_term rd) /\
+             rd_pos (c_rd c') = rd_pos rd + Nat.min limit (length (rd_data rd)).
+Proof.
+  intros Hf e x s' Ha.
+  pose proof (run_sim (rd_data rd) (rd_pos rd) crc p _ _ s (Rel_start rd limit crc fuel Hf)) as H.
+  pose proof (never_past_frame p rd limit crc fuel s Hf) as Hn.
+  unfold sim in H. rewrite Ha in H.
+  destruct (run_c p (start_c rd limit crc fuel) s) as [? ? ?|? ? ?|e' c' s''|?|]; try contradiction.
+  destruct H as (-> & -> & _). destruct Hn as [Hp He]. exists c'. repeat split; assumption.
+Qed.
+
+Lemma error_kind limit data t : err_of limit data t = IOBeyond \/ err_of limit data t = noEOF t.
+Proof. unfold err_of. destruct (Nat.leb limit (length data)); auto. Qed.
+
 (* ------------------------------------------------------------ the abstract interpreter on a cut input *)
 (* running a program on the first k bytes of an input either ends in an I/O
    error (a byte was needed that the cut input no longer has) or ends exactly as
